@@ -67,13 +67,15 @@ static void snapshot(const tgt_t *t)
 	} else { fputs("null", stdout); free(last_snap); last_snap = NULL; }
 }
 
+/* an application reuses one jwt_value_t for many calls: before each set-up macro the struct holds leftovers (all ones, a pattern, zeros) */
+#define POISON() ((n_ops % 3) == 0 ? 0xff : (n_ops % 3) == 1 ? 0xa5 : 0)
 static void do_op(const tgt_t *t, const op_t *op)
 {
 	jwt_value_t v;
 	jwt_value_error_t rc;
 	n_ops++;
 	if (quiet) {
-		memset(&v, 0, sizeof(v));
+		memset(&v, POISON(), sizeof(v));
 		if (op->kind == 'S') {
 			switch (op->type) {
 			case I: jwt_set_SET_INT(&v, op->name, op->ival); break;
@@ -98,7 +100,7 @@ static void do_op(const tgt_t *t, const op_t *op)
 	printf("[\"O\",%ld,%d,\"%c\",%d,", cur_seq, cur_target, op->kind, op->type);
 	vh_put_jstr(stdout, op->name);
 	printf(",");
-	memset(&v, 0, sizeof(v));
+	memset(&v, POISON(), sizeof(v));	/* what an earlier use left in the struct: the set-up macros are the whole contract */
 	if (op->kind == 'S') {
 		switch (op->type) {
 		case I: jwt_set_SET_INT(&v, op->name, op->ival); printf("%ld", op->ival); break;
